@@ -271,6 +271,11 @@ Section FromPb.
 End FromPb.
 
 (* ---------- bytes-to-sign ---------- *)
+(* total projections: participants / raw bytes of a signature (nothing for nil) *)
+Definition sig_ids (s : qsig) : list rid := match sig_participants s with Ok l => l | _ => [] end.
+Definition sig_raw (s : qsig) : bytes := match sig_bytes s with Ok b => b | _ => [] end.
+Definition sig_is_nil (s : qsig) : bool := match s with SigNil => true | _ => false end.
+
 (* the claimed participants as QuorumCert.ToBytes appends them: each id (4 bytes LE), then their count *)
 Definition participants_bytes (ids : list rid) : bytes :=
   concat (map le32 ids) ++ le32 (N.of_nat (length ids)).
